@@ -34,7 +34,12 @@ type callResult struct {
 
 // guarded runs fn with a step budget (effective on instrumented builds)
 // and converts a panic into a value.
+// LibCalls counts the guarded calls into the library made by this process:
+// the transitions of the closed system (driver + library) that were executed.
+var LibCalls int64
+
 func guarded(budget int64, fn func()) (res callResult) {
+	LibCalls++
 	tickClock()
 	start := mq.VerifSteps
 	if budget > 0 {
